@@ -79,9 +79,12 @@ def execute_replica(plan, ridx, repo):
     replica = plan["replicas"][ridx]
     root = tempfile.mkdtemp(prefix="fmsim-run-", dir=scratch_base())
     results = []
+    segments = plan["segments"]
+    if replica.get("isolate"):
+        segments = isolate_lanes(segments)
     try:
         files = {}
-        for sidx, seg in enumerate(plan["segments"]):
+        for sidx, seg in enumerate(segments):
             env_spec = dict(seg.get("env", {}))
             over = replica.get("env_by_segment")
             if over:
@@ -108,6 +111,26 @@ def execute_replica(plan, ridx, repo):
     finally:
         shutil.rmtree(root, ignore_errors=True)
     return results
+
+
+def isolate_lanes(segments):
+    """History-free twin of a session: the operations on each model run in an interpreter of
+    their own (one lane = NEW/EDIT/EXEC/... of one model handle, in their original order)."""
+    out = []
+    for seg in segments:
+        lanes = []
+        index = {}
+        for op in seg["ops"]:
+            handle = op.get("m") or op.get("as") or "_"
+            if handle not in index:
+                index[handle] = len(lanes)
+                lanes.append([])
+            lanes[index[handle]].append(op)
+        for lane in lanes:
+            sub = dict(seg)
+            sub["ops"] = lane
+            out.append(sub)
+    return out
 
 
 # ---------------------------------------------------------------------- failures of a plan
